@@ -104,7 +104,7 @@ def drive_legacy(tier):
                     same = tx.serialize() == before
                     o = {"k": "ret", "h": b2l(v[0]), "err": v[1] is not None, "same": same} if k == "ret" else dict(exc_info(v), k="exc", same=same)
                     R.add("sighash.raw", {"tx": js, "script": b2l(sub), "idx": idx, "ht": ht, "mutable": mut}, o, _cost=400)
-                    k, v = call(SignatureHash, sc, tx, idx, ht)
+                    k, v = call(SignatureHash, script=sc, txTo=tx, inIdx=idx, hashtype=ht) if ht % 3 == 1 else call(SignatureHash, sc, tx, idx, ht)
                     same = tx.serialize() == before
                     o = {"k": "ret", "h": b2l(v), "same": same} if k == "ret" else dict(exc_info(v), k="exc", same=same)
                     R.add("sighash.cooked", {"tx": js, "script": b2l(sub), "idx": idx, "ht": ht, "mutable": mut}, o, _cost=400)
@@ -160,7 +160,10 @@ def drive_v0(tier):
                     js = gen.tx_json(d)
                     before = tx.serialize()
                 for ht in hts:
-                    k, v = call(SignatureHash, CScript(code), tx, idx, ht, amount, SIGVERSION_WITNESS_V0)
+                    if ht % 3 == 1:      # the same call with keyword arguments
+                        k, v = call(SignatureHash, script=CScript(code), txTo=tx, inIdx=idx, hashtype=ht, amount=amount, sigversion=SIGVERSION_WITNESS_V0)
+                    else:
+                        k, v = call(SignatureHash, CScript(code), tx, idx, ht, amount, SIGVERSION_WITNESS_V0)
                     same = tx.serialize() == before
                     o = {"k": "ret", "h": b2l(v), "same": same} if k == "ret" else dict(exc_info(v), k="exc", same=same)
                     R.add("sighash.v0", {"tx": js, "script": b2l(code), "idx": idx, "ht": ht,
